@@ -5,6 +5,7 @@ Everything printed is computed by the definitions the theorems are about.
 -/
 import Cntgs.World
 import Cntgs.Compare
+import Cntgs.Emplace
 namespace Cntgs.Driver
 open Cntgs
 
@@ -82,6 +83,15 @@ def dumpVec (k : Nat) (ov : Option Vec) : String :=
                else s!" loc=var:{joinNat ((List.range v.loc.size).map v.loc.slots)}/{v.loc.last} tbl={optNat v.tbl}"
     let elems := String.join ((List.range v.size).map (fun i => " |" ++ showElem v i))
     head ++ s!" dbeg=0 dend={v.dataEnd}" ++ loc ++ elems ++ (if v.poison then " POISON" else "")
+
+def parseTy (s : String) : Option Ty :=
+  [("u8", Ty.u8), ("i8", .i8), ("c8", .c8), ("b1", .b1), ("u16", .u16), ("i16", .i16), ("u32", .u32), ("i32", .i32),
+   ("u64", .u64), ("i64", .i64), ("f32", .f32), ("f64", .f64), ("e8", .e8), ("p64", .p64), ("w1", .w1), ("w4", .w4),
+   ("conv", .conv), ("cnt", .cnt)].lookup s
+
+def parseForm (s : String) : Option Form :=
+  [("vecL", Form.vecL), ("vecR", .vecR), ("listL", .listL), ("listR", .listR), ("arrL", .arrL), ("stdArrL", .stdArrL),
+   ("genL", .genL), ("ptr", .ptr), ("vecIt", .vecIt), ("listIt", .listIt), ("moveIt", .moveIt)].lookup s
 
 def vidx (s : String) : Nat := (s.drop 1).toString.toNat!
 
@@ -181,6 +191,16 @@ def step (st : St) (line : String) : St × List String :=
       let ea := va.abs.map (·.getD []); let eb := vb.abs.map (·.getD []); let ec := vc.abs.map (·.getD [])
       (st, [s!"transv ab={b2s (vecLt st.ps ea eb)} bc={b2s (vecLt st.ps eb ec)} ac={b2s (vecLt st.ps ea ec)}"])
     | _, _, _ => (st, ["bad-op transv"])
+  | ["emp", t, u, f, _kind, items] =>
+    match parseTy t, parseTy u, parseForm f with
+    | some t, some u, some f =>
+      let xs := parseList items
+      let st' := stored f t u xs
+      let mv := u == .cnt && movesEach f t u
+      let cp := u == .cnt && path f t u == .copyEach
+      let src := if mv then xs.map (fun _ => 0) else xs
+      (st, [s!"emp mc={b2s (memcpyCompatible t u)} hds={b2s (f.isRange && f.hasDataAndSize)} ci={b2s (!f.isRange && f.contiguousIterator)} stored={joinNat st'} src={joinNat src} copies={if cp then xs.length else 0} moves={if mv then xs.length else 0}"])
+    | _, _, _ => (st, ["bad-op emp"])
   | ["destroy", v] =>
     let k := vidx v
     let w' := w.destroy k
